@@ -615,8 +615,19 @@ impl IQLEngine {
         // Recursion detection
         self.has_recursion = recursion::has_recursion(&program);
 
-        // Stratification - compute evaluation order using SCCs
-        self.strata = recursion::stratify(&program);
+        // Stratification - compute evaluation order using SCCs.
+        // A program with recursion through negation has no stratified model:
+        // reject it here, for every way rules can reach the engine (persistent
+        // rule prefix, session rules, inline rules), instead of evaluating it
+        // in an arbitrary order.
+        self.strata = match recursion::stratify_with_negation(&program) {
+            recursion::StratificationResult::Success(strata) => strata,
+            recursion::StratificationResult::NotStratifiable { reason, .. } => {
+                return Err(format!(
+                    "Unstratified negation: {reason}. Negation through recursion is not supported."
+                ));
+            }
+        };
 
         self.program = Some(program);
         Ok(self
